@@ -636,6 +636,7 @@ func main() {
 		{"sendBatchSrc", []string{"SendBatchSrc.lean"}, genSendBatchSrc},
 		{"filterSrc", []string{"FilterSrc.lean"}, genFilterSrc},
 		{"marshalSrc", []string{"MarshalSrc.lean"}, genMarshalSrc},
+		{"kinesisSrc", []string{"KinesisSrc.lean"}, genKinesisSrc},
 	}
 	status := map[string]interface{}{}
 	failed := 0
